@@ -393,6 +393,31 @@ Qed.
 
 End Dec.
 
-(* the documented soft-requirement exemption set: soft solvables that were accepted *)
-Definition exempt (P : problem) (S : list N) : list N :=
-  filter (fun s => memN s S) (pr_soft P).
+(* the documented soft-requirement exemption (Solver::solve): an accepted soft solvable is not
+   subject to the lock / exclusion list of its own package UNLESS that package is requested
+   through a version set (requirement or constrains entry) of the root or of another selected
+   solvable *)
+Definition dep_names (U : provider) (d : deps) : list N :=
+  match d with
+  | Known rs cs => map (p_vs_name U) (flat_map (req_vss U) rs ++ cs)
+  | Unknown => []
+  end.
+
+Definition pkg_requested (U : provider) (P : problem) (S : list N) (s : N) : bool :=
+  memN (p_sol_name U s) (dep_names U (Known (pr_reqs P) (pr_cons P))) ||
+  existsb (fun t => negb (N.eqb t s) && memN (p_sol_name U s) (dep_names U (p_deps U t))) S.
+
+Definition exempt (U : provider) (P : problem) (S : list N) : list N :=
+  filter (fun s => memN s S && negb (pkg_requested U P S s)) (pr_soft P).
+
+Lemma bool_eq_iff (a b : bool) : (a = true <-> b = true) -> a = b.
+Proof. destruct a, b; intros [H1 H2]; try reflexivity; [symmetry; apply H1; reflexivity | apply H2; reflexivity]. Qed.
+
+Lemma exempt_same_set U P A B : same_set A B -> exempt U P A = exempt U P B.
+Proof.
+  intro H. unfold exempt. apply filter_ext. intro s. f_equal.
+  - apply bool_eq_iff. rewrite !memN_In. apply H.
+  - f_equal. unfold pkg_requested. f_equal. apply bool_eq_iff. rewrite !existsb_exists.
+    split; intros [t [Ht E]]; exists t; (split; [apply H; exact Ht | exact E]).
+Qed.
+
